@@ -119,3 +119,22 @@ theorem old_indirect_inherit_not_checked :
   decide
 
 end NV.C17
+
+namespace NV.C17
+
+/-! ### 6. why the patch list must not depend on the pragma state at generation time -/
+
+/-- a code generator that records a string switch only while `#pragma save_binary` is already set -/
+def condGenPatches : Bool → List GenEv → List Nat
+  | _, [] => []
+  | _, .pragmaSaveBinary on :: rest => condGenPatches on rest
+  | st, .stringSwitch site :: rest => if st then site :: condGenPatches st rest else condGenPatches st rest
+  | st, _ :: rest => condGenPatches st rest
+
+/-- with the pragma below the function, the program is saved but its switch is not in the list: the table keeps the
+    string addresses of the saving process -/
+theorem conditional_patch_list_misses_switch :
+    ∃ evs, savedAtEnd evs = true ∧ condGenPatches false evs ≠ stringSwitchSites evs :=
+  ⟨[.stringSwitch 12, .pragmaSaveBinary true], by decide, by decide⟩
+
+end NV.C17
